@@ -1,6 +1,7 @@
 import TinsModel.Follower.LemmasIdent
 import TinsModel.Follower.LemmasStep
 import TinsModel.Follower.LemmasSim
+import TinsModel.Follower.LemmasRoute
 /- Property C07 — stream follower tracks connections, directions and lifetimes: the property theorems.
    Model: TinsModel/Follower/Model.lean (code-shaped, generic in the connection key; the code is `keyOf = identOf`).
    Reference: TinsModel/Follower/Spec.lean (`refKeyOf` = family + unordered endpoint pair). -/
@@ -127,5 +128,161 @@ theorem collisionFree_of_no_twins (h : List Pkt) (hn : ∀ p ∈ h, ∀ q ∈ h,
 
 example : CollisionFree [syn4, { syn4 with sport := 1235 }, { syn6 with sport := 1235 , dport := 81}] := by
   apply collisionFree_of_no_twins; decide
+
+/-! ## 4. every connection is announced exactly once per lifetime
+
+  The statements of sections 4–6 hold for every key function (`keyOf`), hence for the code (`identOf`, `Ident.lt`) and for the
+  reference table (`refKeyOf`, `RefKey.lt`); `k` is the key under which a connection is stored.  They are stated for an
+  arbitrary follower state with unique keys, which every reachable state has (`reachable_unique`). -/
+
+section generic
+variable {κ : Type} [DecidableEq κ]
+
+theorem reachable_unique (cfg : Cfg) (keyOf : Pkt → κ) (lt : κ → κ → Bool) (h : List Pkt) :
+    UniqueKeys (run cfg keyOf lt Follower.empty h).1.streams := by
+  suffices ∀ F : Follower κ, UniqueKeys F.streams → UniqueKeys (run cfg keyOf lt F h).1.streams from this _ empty_unique
+  induction h with
+  | nil => intro F hF; exact hF
+  | cons p ps ih => intro F hF; unfold run; exact ih _ (step_unique cfg keyOf lt F p hF)
+
+/-- The new-stream callback is made for `k` in a step exactly when the packet belongs to `k`, `k` is not live, and the
+    packet is an initial SYN (SYN without ACK) or — with attaching enabled — carries a payload. -/
+theorem announce_iff (cfg : Cfg) (keyOf : Pkt → κ) (lt : κ → κ → Bool) (F : Follower κ) (p : Pkt) (k : κ) :
+    (∃ e ∈ (step cfg keyOf lt F p).2, e.isNew k = true) ↔
+      (k = keyOf p ∧ find? F.streams k = none ∧ startable cfg p = true) := by
+  unfold step
+  simp only [List.mem_append]
+  constructor
+  · rintro ⟨e, he | he, hc⟩
+    · obtain ⟨s, ht, h⟩ := core_events_shape cfg keyOf F p e he
+      rcases h with ⟨ha, rfl⟩ | ⟨x, hx, rfl⟩ | ⟨hf, rfl⟩ | ⟨_, rfl⟩
+      · have hk : keyOf p = k := by simpa [Ev.isNew] using hc
+        subst hk
+        unfold announces at ha
+        simp only [Bool.and_eq_true, Option.isNone_iff_eq_none] at ha
+        exact ⟨rfl, ha.1, ha.2⟩
+      · cases x <;> simp [liftEv, Ev.isNew] at hc
+      · simp [Ev.isNew] at hc
+      · simp [Ev.isNew] at hc
+    · obtain ⟨_, _, _, _, rfl⟩ := sweep_events_timeout cfg lt _ _ e he
+      simp [Ev.isNew] at hc
+  · rintro ⟨rfl, hf, hs⟩
+    have ha : announces cfg keyOf F p = true := by unfold announces; simp [hf, hs]
+    have ht : target cfg keyOf F p = some (fresh cfg p) := by unfold target; simp [hf, hs]
+    refine ⟨Ev.new (keyOf p) (fresh cfg p).sid (fresh cfg p).isPartial, Or.inl ?_, by simp [Ev.isNew]⟩
+    rw [stepCore_eq, ht]
+    simp [ha]
+
+/-- **announce_once.**  In the callback trace of any capture: `new k` is issued only while `k` is not live, data /
+    out-of-order / closed callbacks of `k` only while it is (`bracketed`) — so between an announcement and the closed or
+    terminated callback that ends the lifetime there is no second announcement and no callback precedes the
+    announcement; and the connections the follower holds at the end are exactly those announced and not yet ended
+    (`liveAfter`) — nothing is forgotten without a closed / terminated callback, nothing is kept after one. -/
+theorem announce_once (cfg : Cfg) (keyOf : Pkt → κ) (lt : κ → κ → Bool) (h : List Pkt) (k : κ) :
+    bracketed k false (run cfg keyOf lt Follower.empty h).2.flatten = true ∧
+    liveAfter k false (run cfg keyOf lt Follower.empty h).2.flatten = (find? (run cfg keyOf lt Follower.empty h).1.streams k).isSome :=
+  let r := run_scan cfg keyOf lt h Follower.empty k empty_unique
+  ⟨r.2, r.1⟩
+
+/-! ## 5. a connection is forgotten exactly when it ends, with the right callback, in that step -/
+
+/-- **forget_iff.**  For a connection that is live before the packet or announced by it:
+    it is gone after `process_packet`  ⟺  it ends now (`EndsNow`: it is the packet's connection and is finished or over
+    a limit after the packet, or the sweep runs and finds it idle for the keep-alive)  ⟺  a closed / terminated
+    callback for it is made in this very step. -/
+theorem forget_iff (cfg : Cfg) (keyOf : Pkt → κ) (lt : κ → κ → Bool) (F : Follower κ) (p : Pkt) (k : κ)
+    (hu : UniqueKeys F.streams) :
+    ((((find? F.streams k).isSome = true ∨ (k = keyOf p ∧ announces cfg keyOf F p = true)) ∧
+        find? (step cfg keyOf lt F p).1.streams k = none) ↔ EndsNow cfg keyOf F p k) ∧
+    ((∃ e ∈ (step cfg keyOf lt F p).2, e.isEnd k = true) ↔ EndsNow cfg keyOf F p k) :=
+  ⟨forgotten_iff cfg keyOf lt F p k hu, end_event_iff cfg keyOf lt F p k hu⟩
+
+/-- **forget_reason.**  Which callback reports the end, and why:
+    closed ⟺ the packet's own connection is finished after the packet;
+    terminated(BUFFERED_DATA) ⟺ the packet's own connection is over a buffering limit after the packet;
+    terminated(TIMEOUT) ⟺ the sweep is due and the connection, as the packet left it, was last seen a keep-alive ago;
+    terminated(SACKED_SEGMENTS) never (ACK tracking off). -/
+theorem forget_reason (cfg : Cfg) (keyOf : Pkt → κ) (lt : κ → κ → Bool) (F : Follower κ) (p : Pkt) (k : κ)
+    (hu : UniqueKeys F.streams) :
+    ((∃ e ∈ (step cfg keyOf lt F p).2, Ev.isClosed k e = true) ↔
+        (k = keyOf p ∧ ∃ s, target cfg keyOf F p = some s ∧ (after s p).isFinished = true)) ∧
+    ((∃ e ∈ (step cfg keyOf lt F p).2, Ev.isTerm k .bufferedData e = true) ↔
+        (k = keyOf p ∧ ∃ s, target cfg keyOf F p = some s ∧
+          ((after s p).chunks > cfg.maxChunks ∨ (after s p).bytes > cfg.maxBytes))) ∧
+    ((∃ e ∈ (step cfg keyOf lt F p).2, Ev.isTerm k .timeout e = true) ↔
+        (sweepDue cfg (stepCore cfg keyOf F p).1 p.ts ∧
+          ∃ s, find? (stepCore cfg keyOf F p).1.streams k = some s ∧ s.lastSeen + cfg.keepAlive ≤ p.ts)) ∧
+    (∀ e ∈ (step cfg keyOf lt F p).2, Ev.isTerm k .sackedSegments e = false) := by
+  refine ⟨closed_iff cfg keyOf lt F p k, ?_, term_timeout_iff cfg keyOf lt F p k hu, no_sacked cfg keyOf lt F p k⟩
+  have := term_buffered_iff cfg keyOf lt F p k
+  unfold overLimit at this
+  simpa only [Bool.or_eq_true, decide_eq_true_eq] using this
+
+end generic
+
+/-- **finished ⟺ FIN both ways or RST** (flag level).  A live stream (not finished) is finished after a packet iff one of
+    its flows claims the packet and the packet carries RST, or carries FIN while the opposite direction is already
+    FIN_SENT; and a direction is FIN_SENT exactly from its first FIN-carrying segment on (`updateState_finSent`). -/
+theorem finished_iff_flags (s : Stream) (p : Pkt) (hnf : s.isFinished = false) :
+    (after s p).isFinished = true ↔
+      ((s.client.packetBelongs p = true ∧ (p.rst = true ∨ (p.fin = true ∧ s.server.state = .finSent))) ∨
+       (s.client.packetBelongs p = false ∧ s.server.packetBelongs p = true ∧
+          (p.rst = true ∨ (p.fin = true ∧ s.client.state = .finSent)))) :=
+  finished_after_iff s p hnf
+
+theorem fin_sent_iff (f : Flow) (p : Pkt) :
+    (f.updateState p).state = .finSent ↔ (p.rst = false ∧ (p.fin = true ∨ f.state = .finSent)) :=
+  updateState_finSent f p
+
+/-! ## 6. every segment reaches the flow whose destination it names -/
+
+/-- **route_correct.**  In every reachable state of the follower (the code's keys), for every live stream and every
+    packet whose identifier selects it, of the stream's address family, between two distinct endpoints:
+    the client flow claims the packet iff its destination is the server endpoint, the server flow iff not (so exactly
+    one flow claims it); the other flow is left untouched; and every data / out-of-order callback made for the packet
+    carries that direction. -/
+theorem route_correct (cfg : Cfg) (h : List Pkt) :
+    ∀ e ∈ (Model.run cfg Follower.empty h).1.streams, ∀ p : Pkt,
+      identOf p = e.1 → p.v6 = e.2.sid.v6 → ¬ (p.src = p.dst ∧ p.sport = p.dport) →
+      let toServer := decide (p.dst = e.2.sid.saddr ∧ p.dport = e.2.sid.sport)
+      e.2.client.packetBelongs p = toServer ∧ e.2.server.packetBelongs p = !toServer ∧
+      (toServer = true → (after e.2 p).server = e.2.server) ∧
+      (toServer = false → (after e.2 p).client = e.2.client) ∧
+      (∀ x ∈ (Stream.route { e.2 with lastSeen := p.ts } p).2,
+          (∃ q d, x = SEv.ooo toServer q d) ∨ (∃ pl, x = SEv.data toServer pl)) := by
+  intro e he p hk hfam hne
+  have ht := run_tied cfg identOf Ident.lt Sid.ident (fun _ => rfl) h Follower.empty (by intro e he; cases he) e he
+  obtain ⟨hb1, hb2⟩ := belongs_iff e.2 p ht.2.1 (by rw [hk]; exact ht.1) hfam hne
+  obtain ⟨r1, r2, _⟩ := route_flows { e.2 with lastSeen := p.ts } p
+  refine ⟨hb1, hb2, ?_, ?_, ?_⟩
+  · intro hts
+    have : e.2.client.packetBelongs p = true := by rw [hb1]; exact hts
+    exact (r1 this).1
+  · intro hts
+    have h1 : e.2.client.packetBelongs p = false := by rw [hb1]; exact hts
+    have h2 : e.2.server.packetBelongs p = true := by rw [hb2, hts]; rfl
+    exact (r2 h1 h2).1
+  · have := route_events_direction { e.2 with lastSeen := p.ts } p
+    simp only at this
+    rw [hb1] at this
+    exact this
+
+/-- KF-C07-1, consequence for routing: a packet of the *other* family whose identifier selects the stream is claimed by
+    neither flow — the segment is dropped (only `last_seen` moves). -/
+theorem route_cross_family_dropped (cfg : Cfg) (h : List Pkt) :
+    ∀ e ∈ (Model.run cfg Follower.empty h).1.streams, ∀ p : Pkt, p.v6 ≠ e.2.sid.v6 →
+      e.2.client.packetBelongs p = false ∧ e.2.server.packetBelongs p = false := by
+  intro e he p hfam
+  have ht := run_tied cfg identOf Ident.lt Sid.ident (fun _ => rfl) h Follower.empty (by intro e he; cases he) e he
+  exact cross_family_dropped e.2 p ht.2.1 hfam
+
+/-- non-vacuity: after the IPv4 SYN the follower holds one stream, and the SYN+ACK answering it satisfies the
+    hypotheses of `route_correct` for it (and is routed to the server flow) -/
+example :
+    let F := (Model.run cfg0 Follower.empty [syn4]).1
+    let synack : Pkt := { syn4 with src := syn4.dst, dst := syn4.src, sport := 80, dport := 1234, flags := 18 }
+    F.streams.length = 1 ∧
+    (∀ e ∈ F.streams, identOf synack = e.1 ∧ synack.v6 = e.2.sid.v6 ∧ e.2.server.packetBelongs synack = true) := by
+  decide
 
 end Tins.Props.C07
